@@ -407,14 +407,17 @@ def _pwl(prog, res, cls_name, order):
     if const_value(kw.get('axis', cc.args[1] if len(cc.args) > 1 else None)) \
         != 0:
       probs.append('extension is not along the keypoint axis 0')
-    if not parts or dotted(parts[0]) != 'heights':
+    # the heights are the rows of x from 1 on, under that name or directly
+    def is_h(e):
+      return e is not None and norm_text(e).replace(' ', '') in (
+          'heights', 'x[1:]')
+    if not parts or not is_h(parts[0]):
       probs.append('extension does not start with heights')
     closing = parts[1] if len(parts) > 1 else None
     ok_close = (isinstance(closing, ast.UnaryOp) and isinstance(
         closing.op, ast.USub) and isinstance(closing.operand, ast.Call)
                 and prog.ext_name(fn.module, closing.operand.func) ==
-                'tf.reduce_sum' and dotted(closing.operand.args[0]) ==
-                'heights')
+                'tf.reduce_sum' and is_h(closing.operand.args[0]))
     if ok_close:
       ckw = {k.arg: k.value for k in closing.operand.keywords}
       ok_close = const_value(ckw.get('axis')) == 0 and const_value(
@@ -422,7 +425,8 @@ def _pwl(prog, res, cls_name, order):
     if not ok_close:
       probs.append('the closing height is not -reduce_sum(heights, axis=0, '
                    'keepdims=True)')
-    wrap = [norm_text(p).replace(' ', '') for p in parts[2:]]
+    wrap = [norm_text(p).replace(' ', '').replace('x[1:][', 'heights[')
+            for p in parts[2:]]
     want = ['heights[%d:%d]' % (i, i + 1) for i in range(order - 1)]
     if wrap != want:
       probs.append('wrap-around rows are %s, expected %s' % (wrap, want))
